@@ -35,7 +35,7 @@ pub fn info() -> PropInfo {
             "error name strings are compared only for names the decoder can decode",
         ],
         level: "exploration",
-        variants: &["full"],
+        variants: &["full", "min"],
     }
 }
 
